@@ -307,6 +307,25 @@ export async function run(ctx) {
           await judge(ctx, { files: { "entry.ts": text }, settings: { string_formats: [], number_formats: [] } }, `jsdoc-frame:${shape}`);
         }
   }
+  // every type name of TypeScript's library (those beff knows, and those it may learn) applied to
+  // hostile literal arguments: text that starts with a multi-byte character, astral characters,
+  // combining marks, the empty string, lone escapes - in 0 to 3 arguments, bare and through aliases
+  {
+    const libNames = ["Uppercase", "Lowercase", "Capitalize", "Uncapitalize", "NonNullable", "Extract", "Exclude", "Awaited", "ReturnType", "Parameters", "InstanceType", "ConstructorParameters", "ThisType", "NoInfer", "Readonly", "ReadonlyArray", "Array", "Promise", "Record", "Partial", "Required", "Pick", "Omit", "Map", "Set", "StringFormat", "NumberFormat", "StringFormatExtends", "NumberFormatExtends", "Iterable", "ArrayLike", "PropertyKey", "Date"];
+    const lits = ['"\u00e9lan"', '"\u00dcber"', '"\u65e5\u4ed8"', '"\ud83d\ude00x"', '"e\u0301"', '""', '"\u00a0"', '"\u0130"', '"\u00df"', '"\ufb01"', '"a"', '"\\u{1F600}"', '"\ud800"'.replace("\ud800", "\\ud800")];
+    let k = 0;
+    for (const n of libNames)
+      for (let li = 0; li < lits.length; li++)
+        for (const form of [0, 1, 2, 3, 4]) {
+          k++;
+          if (k % ctx.of !== ctx.shard) continue;
+          const l = lits[li], l2 = lits[(li + 3) % lits.length];
+          const use = form === 0 ? `${n}<${l}>` : form === 1 ? `${n}<${l} | ${l2}>` : form === 2 ? `${n}<L>` : form === 3 ? `${n}<${l}, ${l2}>` : `{ [P in ${n}<${l} | "name">]: string }`;
+          const text = `type L = ${l} | ${l2};\nexport const P = parse.buildParsers<{ X: ${use} }>();\n`;
+          ctx.count("lib-name-grid");
+          await judge(ctx, { files: { "entry.ts": text }, settings: { string_formats: ["\u00e9lan"], number_formats: [] } }, `lib-name:${n}/${form}`);
+        }
+  }
   // two (or three) different recursive types that each go through a semantic operator in ONE build:
   // the helper types the computations introduce share the build's name space
   {
